@@ -27,12 +27,13 @@ Endings == <<
   <<<<112, 99, 116>>, -2>>, <<<<109, 110>>, 6>>, <<<<98, 110>>, 9>>, <<<<116, 110>>, 12>>, <<<<98, 112>>, -4>>, <<<<37>>, -2>>, <<<<109>>, 6>>,
   <<<<107>>, 3>>, <<<<98>>, 9>>, <<<<116>>, 12>>, <<<<99, 114, 111, 114, 101>>, 7>>, <<<<108, 97, 107, 104>>, 5>> >>
 
-HasEnding(t) == Len(t) >= 2 /\ ~IsDigit(t[Len(t)]) /\ \E k \in DOMAIN Endings : IsSuf(Endings[k][1], Lower(t))
+\* the endings that fit the text t (0 = none): looked for only in a text of two characters or more that does not end in a digit
+Fits(t) == LET lt == Lower(t) IN IF Len(t) < 2 \/ IsDigit(t[Len(t)]) THEN {} ELSE {k \in DOMAIN Endings : IsSuf(Endings[k][1], lt)}
 \* law: the longest ending that fits
-LongestEnding(t) == CHOOSE k \in DOMAIN Endings : /\ IsSuf(Endings[k][1], Lower(t))
-                                                  /\ \A j \in DOMAIN Endings : IsSuf(Endings[j][1], Lower(t)) => Len(Endings[j][1]) <= Len(Endings[k][1])
+EndingOf(t) == LET f == Fits(t) IN IF f = {} THEN 0 ELSE CHOOSE k \in f : \A j \in f : Len(Endings[j][1]) <= Len(Endings[k][1])
 \* code: the first of the table that fits
-FirstEnding(t) == CHOOSE k \in DOMAIN Endings : IsSuf(Endings[k][1], Lower(t)) /\ \A j \in 1..(k - 1) : ~IsSuf(Endings[j][1], Lower(t))
+FirstEndingOf(t) == LET f == Fits(t) IN IF f = {} THEN 0 ELSE CHOOSE k \in f : \A j \in f : k <= j
+HasEnding(t) == Fits(t) # {}
 
 ParseNum(t) ==
     LET signed == t # <<>> /\ (t[1] = 45 \/ t[1] = 43)
@@ -60,8 +61,8 @@ Norm(m, e) == IF m = 0 THEN <<0, 0>> ELSE IF m % 10 = 0 THEN Norm(m \div 10, e +
 TNum(m, e) == <<"num", Norm(m, e)>>
 NotANumber(x) == {Val(TNone), Val(x)}                  \* named deviation: None (the test) or the text itself (the code)
 
-Body(t)  == IF HasEnding(t) THEN TxTake(t, Len(t) - Len(Endings[LongestEnding(t)][1])) ELSE t
-Power(t) == IF HasEnding(t) THEN Endings[LongestEnding(t)][2] ELSE 0
+Body(t)  == LET k == EndingOf(t) IN IF k = 0 THEN t ELSE TxTake(t, Len(t) - Len(Endings[k][1]))
+Power(t) == LET k == EndingOf(t) IN IF k = 0 THEN 0 ELSE Endings[k][2]
 
 \* texts that Python's float() reads although the grammar above does not list them, or whose numbers do not fit the
 \* 32-bit integers of the checker: outside the domain
